@@ -1,8 +1,7 @@
 #!/bin/sh
 # tools/try_seed.sh <Cxx> <patch.diff> [tier] [logfile]: run ./check Cxx against a scratch worktree of /repo HEAD with the patch applied.
 # (equivalent to applying it in /repo; a worktree is used so that concurrently running checks are not disturbed; evidence/ is not
-# touched because VERIF_REPO != /repo). Gen/ files regenerated from the patched tree are left in place: run
-# `git -C /verif checkout -- lean/RkVerif/Gen harness/gen` after the last experiment (every check regenerates its own on each run).
+# touched because VERIF_REPO != /repo). Gen/ files of this property regenerated from the patched tree are restored from git afterwards.
 pid="$1"; patch="$2"; tier="${3:-quick}"; log="${4:-/tmp/seedlog_$$.log}"
 wt=/tmp/wt_seed_$$
 git -C /repo worktree add -q $wt HEAD || exit 2
@@ -14,4 +13,8 @@ rc=$?
 e=$(date +%s)
 echo "$pid $(basename $(dirname $patch)) rc=$rc $((e-s))s :: $(grep -E "VIOLATION|KNOWN-FINDING|Traceback" "$log" | cut -c1-200 | head -4 | tr '\n' '|')"
 git -C /repo worktree remove --force $wt
+# put back the committed snapshot of what this property regenerates from the source (the run above rewrote it from the
+# patched tree; the next check of /repo would rewrite it again, but a commit in between must not pick up a mutant's model)
+lo=$(echo $pid | tr 'C' 'c')
+git -C /verif checkout -- $(git -C /verif ls-files "lean/RkVerif/Gen/${pid}*" "harness/gen/${lo}*") 2>/dev/null
 exit $rc
